@@ -452,7 +452,7 @@ func reportExtraJob(ctx *Ctx, prop, what, text string, jr *jobResult) {
 // ---------------------------------------------------------------------------------------------
 // engine srv.http: kmipserver.NewHTTPHandler (in process: ServeHTTP is an ordinary call)
 
-func httpBodies() map[string][3][]byte {
+func srvxHTTPBodies() map[string][3][]byte {
 	// per content type: a decodable request is built by the caller; here: [well-formed but undecodable, not well-formed, empty structure]
 	return map[string][3][]byte{
 		"application/octet-stream": {
@@ -532,7 +532,7 @@ func runSrvHTTP(ctx *Ctx) {
 			ctx.Res.Count("http.handler")
 		}
 		// 2. bodies that arrive completely but cannot be decoded: ONE invalid-message response
-		for v, body := range httpBodies()[c.mime] {
+		for v, body := range srvxHTTPBodies()[c.mime] {
 			line := fmt.Sprintf("# srv.http %s undecodable=%d %x", c.mime, v, body)
 			ctx.current = line
 			rec, p := serve(line, c.mime, body)
